@@ -124,6 +124,8 @@ def handle : List Sexp → Option Sexp
       | "inline" => pure (resOut (renderInlineReal files entry kind data fuel))
       | "inline-marked" => pure (resOut (renderInline files entry kind data fuel))
       | "runtime" => pure (resOut (renderRuntime files entry kind data fuel))
+      -- the specification evaluator (an include stands for its target), where `runtime_eq_spec_partial` speaks
+      | "inplace" => pure (if noMtFiles files then resOut (renderSpec files entry kind data fuel) else .atom "na")
       | _ => none
   | [.atom "chain", .atom mode, fuel, files, .list reqs] => do
       let fuel ← fuel.toNat?
